@@ -14,7 +14,7 @@
      scalar c                        c is a Unicode scalar value (not a surrogate, <= 10FFFF): exactly
                                      the text urllib.parse.quote can encode (lone surrogates raise
                                      UnicodeEncodeError on the client and cannot be sent) *)
-From Verif Require Import lib.Base lib.Str lib.Utf8 lib.Pct model.Qsl proofs.C18_spec proofs.C18_proofs proofs.C18_scan.
+From Verif Require Import lib.Base lib.Str lib.Utf8 lib.Utf8Dec lib.Pct model.Qsl proofs.C18_spec proofs.C18_proofs proofs.C18_scan.
 
 (* For EVERY list of pairs with non-empty keys and scalar text — any characters,
    including '=', '&', '+', '%', space, controls, Latin-1, non-BMP; any repetition
@@ -52,6 +52,30 @@ Theorem C18_params :
     params (urlencode ps1) (urlencode ps2) = QDone (dict_update (group ps1) (group ps2)).
 Proof. exact C18_params_lemma. Qed.
 Print Assumptions C18_params.
+
+(* One request, query string AND urlencoded body, read through query / forms /
+   params any number of times in any order: every read returns what its accessor
+   returns on a fresh request (reads do not influence each other), and on encoded
+   pairs every read is the grouping / the merge, whatever the order. *)
+Theorem C18_access_order_independent :
+  forall (qs : str) (body : list N) (order : list accessor),
+    (forall i, nth_error (read_seq qs body order) i = option_map (read_one qs body) (nth_error order i))
+    /\ (forall order' i j a, nth_error order i = Some a -> nth_error order' j = Some a ->
+          nth_error (read_seq qs body order) i = nth_error (read_seq qs body order') j).
+Proof. exact C18_access_order_lemma. Qed.
+Print Assumptions C18_access_order_independent.
+
+Theorem C18_access_roundtrip :
+  forall ps1 ps2 order,
+    (forall k v, In (k, v) (ps1 ++ ps2) -> k <> [] /\ Forall scalar k /\ Forall scalar v) ->
+    read_seq (urlencode ps1) (urlencode ps2) order
+    = map (fun a => QDone match a with
+                          | AQuery => group ps1
+                          | AForms => group ps2
+                          | AParams => dict_update (group ps1) (group ps2)
+                          end) order.
+Proof. exact C18_access_roundtrip_lemma. Qed.
+Print Assumptions C18_access_roundtrip.
 
 (* Parsing ANY string (any code points, any bytes for the body) yields a value:
    the model has no error constructor on this path and fuel is never exhausted. *)
@@ -109,6 +133,26 @@ Proof.
   exact (fun s H => conj (unquote_quote s H) (conj (unquote_plus_quote_plus s H) (unquote_plus_quote s H))).
 Qed.
 Print Assumptions C18_unquote_quote.
+
+(* the strict decoder accepts only canonical encodings of scalar values (no overlongs,
+   surrogates, > 10FFFF, truncated or stray bytes), and the lossy decoder only ever
+   produces scalar text *)
+Theorem C18_utf8_dec_sound :
+  forall bs s, utf8_dec bs = Some s <-> (utf8_enc_str s = bs /\ Forall scalar s).
+Proof. exact utf8_dec_iff. Qed.
+Print Assumptions C18_utf8_dec_sound.
+
+Theorem C18_utf8_replace_scalar :
+  forall bs, Forall scalar (utf8_dec_replace bs).
+Proof. exact utf8_dec_replace_scalar. Qed.
+Print Assumptions C18_utf8_replace_scalar.
+
+(* the in-place recursion used by the model of _unquote_impl equals the source's
+   formulation: split on '%', look item[:2] up in the table of hex pairs *)
+Theorem C18_unquote_impl_split_form :
+  forall s, unquote_to_bytes s = unquote_to_bytes_split s.
+Proof. exact unquote_to_bytes_split_eq. Qed.
+Print Assumptions C18_unquote_impl_split_form.
 
 (* ---- non-vacuity and what [group] means on a concrete submission ---- *)
 
